@@ -381,4 +381,81 @@ class RunCheck(Contract):
         return {"only_the_check_raises": exc.attrs.get("__from_callback__") is not None}
 
 
-CONTRACTS = ALIASES + [PreprocessField, ApplyField, PostprocessField, PostprocessBool, RunCheck]
+class PolarsAgg:
+    """a 1x1 polars frame holding the verdict: `.collect().item()`"""
+
+    __pyvc_symbolic__ = True
+
+    def __init__(self, v):
+        self.v = v
+
+    def collect(self, **kw):
+        return self
+
+    def item(self):
+        return self.v
+
+
+class PolarsLazy:
+    """an opaque LazyFrame: collect() yields an opaque DataFrame (head / rows for the message)"""
+
+    __pyvc_symbolic__ = True
+
+    def __init__(self, name):
+        self.name = name
+
+    def collect(self, **kw):
+        return PolarsLazy(self.name + ".collected")
+
+    def head(self, *a):
+        return self
+
+    def rows(self, **kw):
+        return core.SAny(name="rows")
+
+
+class PolarsRunCheck(RunCheck):
+    """polars twin of RunCheck (same documented meaning of raise_warning)"""
+
+    target = "pandera.backends.polars.base:PolarsSchemaBackend.run_check"
+    opaque = ()
+
+    def make_args(self):
+        class Schema:  # (only its __name__ is read, for the message)
+            pass
+
+        a = {"self": T.Ref(None).fresh("self"), "check_obj": T.fresh_value(T.Any, "check_obj"), "schema": T.Ref(Schema).fresh("schema"),
+             "check_index": T.fresh_value(T.Nat, "check_index")}
+        verdict = T.fresh_value(T.Bool, "check_passed")
+        has_fc = cur().choose([("tabular_failure_cases", None), ("no_failure_cases", None)], "failure_cases")
+
+        def result(name):
+            o = Obj(CheckResult, name, pre=False)
+            o.attrs.update(check_output=PolarsLazy("check_output"), check_passed=PolarsAgg(verdict), checked_object=a["check_obj"],
+                           failure_cases=PolarsLazy("failure_cases") if has_fc == 0 else None)
+            return o
+
+        chk = T.Ref(None, ignore_na=T.Bool, raise_warning=T.Bool, __call__=T.Callback(T.Lazy(result))).fresh("check")
+        a["check"] = chk
+        cur().ghost["verdict"] = verdict
+        return a
+
+    def ensures(self, result, old, self_, check_obj, schema, check, check_index):
+        cb = check.attrs["__call__"]
+        warns = [e for e in cur().events if e[0] == "warn"]
+        rw = fld0(check, "raise_warning")
+        cp = cur().ghost["verdict"]
+        out = {"check_called_once_on_the_object": len(cb.calls) == 1 and cb.calls[0][0][0] is check_obj}
+        out["warns_iff_failed_and_raise_warning"] = Iff(len(warns) == 1, And(rw, Not(cp))) if len(warns) <= 1 else False
+        out["warning_class"] = all(w[1] is SchemaWarning for w in warns)
+        out["raise_warning_never_fails"] = Implies(rw, py_eq(result.attrs["passed"], True))
+        out["otherwise_verdict_is_check_verdict"] = Implies(Not(rw), Iff(result.attrs["passed"], cp))
+        out["result_names_the_check"] = result.attrs["check"] is check
+        if result.attrs["passed"] is not True:
+            out["reason_code"] = result.attrs["reason_code"] is SchemaErrorReason.DATAFRAME_CHECK
+            out["check_index_forwarded"] = result.attrs["check_index"] is check_index
+            out["row_wise_output_reported_for_drop_invalid_rows"] = isinstance(result.attrs.get("check_output"), PolarsLazy)
+        return out
+
+
+CONTRACTS = ALIASES + [PreprocessField, ApplyField, PostprocessField, PostprocessBool, RunCheck, PolarsRunCheck]
